@@ -31,7 +31,7 @@ THOROUGH_FACTOR = 3
 
 def to_smt2(hyps, goal):
   s = z3.Solver()
-  for a in sym.background_axioms():
+  for a in sym.background_axioms(list(hyps) + [goal]):
     s.add(a)
   for h in hyps:
     s.add(h)
